@@ -74,6 +74,24 @@ theorem json_roundtrip_fails_at_nan_payload : ¬ JsonRoundTrip dFloat := by
   rw [h1, h2] at ht
   cases ht
 
+/-- `d:(dictionary int) = T` — a string-keyed dictionary -/
+def dDict : Desc :=
+  { insts := #[.prim .str, .prim .i32,
+      .struct { tag := 0, nparams := 0, fields := [{ name := "key", ty := 0, bare := true, mask := none, tl2bit := none, isBit := false, natArgs := [] },
+                                                   { name := "value", ty := 1, bare := true, mask := none, tl2bit := none, isBit := false, natArgs := [] }] },
+      .dict { isTuple := false, dynamic := false, count := 0, nparams := 0, hasTL2 := false,
+              elem := { name := "", ty := 2, bare := true, mask := none, tl2bit := none, isBit := false, natArgs := [] } }],
+    names := #["string", "int", "__dict_field", ""] }
+
+/-- **F1.** A dictionary key that is not valid UTF-8 has no JSON: the generated writer emits `{"base64":…}` in key position
+(not a JSON text — observed by the check with `encoding/json.Valid`); the model reports it as a writer error, so `json_valid`
+does not speak about such values. -/
+theorem dict_key_non_utf8_has_no_json :
+    writeJson dDict 4 3 [] (.arr [.struct [some (.str [0xFF]), some (.nat 1)]]) = .error .shape := by rfl
+
+/-- with a valid key the same dictionary is written as an object -/
+example : writeJson dDict 4 3 [] (.arr [.struct [some (.str [107]), some (.nat 1)]]) = .ok (.obj [([107], .num ['1'])]) := by rfl
+
 /-- the same type round-trips for a value inside the guard (finite, non-zero float): 1.5 -/
 example : ∃ j v', writeJson dFloat 4 1 [] (.struct [some (.nat 0x3FC00000)]) = .ok j ∧
     readJson dFloat false parseJson 4 1 [] (some j) = .ok v' ∧ v' = .struct [some (.nat 0x3FC00000)] :=
